@@ -495,6 +495,10 @@ package bt
 //@   loop 0 invariant (= (blen (old (rem r))) (+ bytesRead (blen (rem r))))
 
 // ---- FORKID signature hash (C02) ----
+// a transaction has fewer than 2^31 inputs and outputs (each takes at least 9 bytes of memory and of wire format): the
+// uint32/int32 index conversions of the signature-hash code rely on it
+//@ field-assume bt.Tx.Outputs (< (len value) 2147483648)
+//@ field-assume bt.Tx.Inputs (< (len value) 2147483648)
 //@ func bt.(*Input).PreviousTxID
 //@   pure
 //@   ensures[prevtxid] (= result (. i previousTxID))
@@ -526,7 +530,6 @@ package bt
 //@   bytes token
 //@   pure
 //@   requires (spec.inputs_nonnil tx) (spec.out_scripts_nonnil tx)
-//@   requires (< (len (. tx Outputs)) 2147483648)
 //@   ensures[C02.preimage_errors] (= (= err nil) (and (< inputNumber (len (. tx Inputs))) (> (len (. (at (. tx Inputs) inputNumber) previousTxID)) 0) (not (nil? (. (at (. tx Inputs) inputNumber) PreviousTxScript)))))
 //@   ensures[C02.preimage] (=> (= err nil) (= (bytes r0) (old (spec.preimage143 tx inputNumber sigHashFlag))))
 // the signature-hash strategy is a bound method value: which method, on which transaction
@@ -537,6 +540,5 @@ package bt
 //@   bytes token
 //@   opt fn-dispatch bt.(*Tx).CalcInputPreimage$bound bt.(*Tx).CalcInputPreimageLegacy$bound
 //@   requires (spec.inputs_nonnil tx) (spec.out_scripts_nonnil tx) (spec.outputs_nonnil tx)
-//@   requires (< (len (. tx Outputs)) 2147483648) (< (len (. tx Inputs)) 4294967295)
 //@   ensures[C02.sighash_errors] (=> (= (mod (div sigHashFlag 64) 2) 1) (= (= err nil) (and (< inputNumber (len (. tx Inputs))) (> (len (. (at (. tx Inputs) inputNumber) previousTxID)) 0) (not (nil? (. (at (. tx Inputs) inputNumber) PreviousTxScript))))))
 //@   ensures[C02.sighash] (=> (and (= err nil) (= (mod (div sigHashFlag 64) 2) 1)) (= (bytes r0) (bsha256d (old (spec.preimage143 tx inputNumber sigHashFlag)))))
